@@ -207,7 +207,7 @@ def sched_constants(tier, depth, outdir, tp):
     return dict(TP=tp, MaxH=3 * depth, MaxConn=4, MaxChan=4, DTS={1, 2}, FREEZE=True, CLOSE=True,
                 IVERS={"none", "OU", "U", "O", "UO"}, DELAYS={0, 1}, ORDS={"ORDERED", "UNORDERED"},
                 CHVERS={"", "v2", "mock-version"}, PORTS={"mock", "mock2"},
-                Depth=depth, OutDir=outdir, HONEST_PCT=55, FULL_PCT=12, MACRO_PCT=30, MUT_PCT=18)
+                Depth=depth, OutDir=outdir, HONEST_PCT=55, FULL_PCT=12, MACRO_PCT=28, MUT_PCT=15, OOO_PCT=8)
 
 
 def sizes(tier):
